@@ -552,6 +552,7 @@ func worker(c *core.Ctx, args []string) {
 	st := e.Explore()
 	c.Add("schedules:"+sc.Name, st.Executions)
 	c.Add("schedules", st.Executions)
+	c.Add("replay_divergences", st.Divergences)
 	for o := range st.Outcomes {
 		c.Distinct("outcomes:"+sc.Name, o)
 	}
